@@ -180,6 +180,12 @@ def run(F, R):
                             if S.nodes[b].ctx is cx:
                                 others |= bv.reach_from([S.nodes[b].bi], avoid=[S.nodes[sn].bi])
                 only = [x for x in ra if x in arm_blocks and x not in others]
+                # and always asked for an on-demand request: from the guard's edge no way back to the wait (or out) avoids the question
+                for (ga, gb) in guards_:
+                    if ga in arm_blocks:
+                        esc = bv.reach_from([gb], avoid=only) & ({S.nodes[sn].bi} | set(bv.exits()))
+                        R.check("C11-R3", "on-demand-always-asks", bool(only) and not esc, "an on-demand request during the reboot wait always re-asks reboot_allowed",
+                                "an on-demand request during the reboot wait can be answered without re-asking reboot_allowed (the reboot it should trigger never happens)", lib.loc(bv, ga))
                 for x in only:
                     R.check("C11-R3", "reboot-question-guarded", guards_ and bv.dominated_by_edge(x, guards_), "reboot_allowed in the control arm only for on-demand requests",
                             "any control request during the reboot wait re-asks reboot_allowed (and may trigger the reboot)", lib.loc(bv, x))
@@ -291,6 +297,28 @@ def run(F, R):
                 live_arm = True
             R.check("C11-R5", "rearmed:%s:arm%d" % (key, k), ok, "after firing, the future is re-armed (Pin::set) or the loop is left", "arm %d's future is polled again after completing without being re-armed" % k, S.nodes[sn].loc())
         R.check("C11-R5", "live-arm:" + key, live_arm, "a non-control arm is always live", "only the control stream keeps this select! alive", S.nodes[sn].loc())
+    # a request wakes a waiting machine: outside a check, timers are only ever waited on as arms of a select that also listens to
+    # the control channel — never awaited on their own (that wait could not be interrupted by a request)
+    chk_id = sm.check_co
+    n_t = 0
+    for n_ in S.nodes:
+        if n_.idx not in S.live or not S.ev[n_.idx] or S.ev[n_.idx][:2] != ("env", "Timer"):
+            continue
+        if any(cx_.bv.id == chk_id for cx_ in _anc11(n_.ctx)):
+            continue   # inside an update check (its back-off wait runs beside the control arm of run()'s select)
+        n_t += 1
+        bv_ = n_.ctx.bv
+        t_ = n_.term
+        nxt = t_.get("t")
+        awaited = False
+        if nxt is not None and not t_["dest"].get("p"):
+            tt_ = bv_.blocks[nxt]["t"]
+            if tt_["k"] == "call" and tt_.get("callee") == "std::future::IntoFuture::into_future" and "await" in tt_["sp"].get("x", ""):
+                pl_ = tt_["args"][0].get("m")
+                awaited = pl_ is not None and not pl_.get("p") and pl_["l"] == t_["dest"]["l"]
+        R.check("C11-R5", "timer-not-awaited-alone:%s#%d" % (bv_.body.get("item") or bv_.id.split("::")[-2], n_t), not awaited, "timer future handed to a select/join, not awaited on its own",
+                "a timer is awaited on its own while the machine is waiting: a start-update-check request cannot wake it until the timer fires", n_.loc())
+    R.floor("C11-R5", "timer futures created while waiting", n_t, 3)
 
 
 def _same_pin(a, b):
@@ -298,6 +326,12 @@ def _same_pin(a, b):
     ca = [x for x in walk(a) if x[0] == "call" and (x[1].startswith("time::Timer") or "make_wait" in x[1] or x[1].endswith("::fuse"))]
     cb = [x for x in walk(b) if x[0] == "call" and (x[1].startswith("time::Timer") or "make_wait" in x[1] or x[1].endswith("::fuse"))]
     return bool(ca) and bool(cb) and ca[0][3] == cb[0][3]
+
+
+def _anc11(cx):
+    while cx is not None:
+        yield cx
+        cx = cx.parent
 
 
 def _k(nd):
